@@ -348,7 +348,11 @@ def render(node):
         else:
             (root, val), = node.tree.items()
             s = ('<?xml version="1.0" encoding="UTF-8"?>\n' if node.decl else "") + xml_text(root, render_xml(val))
-        return base64.b64encode(s.encode()).decode() if node.b64 else s
+        if node.b64:
+            # markers in a value stand for bytes that are no UTF-8 (a Latin-1 password, a binary token): only a wrapped
+            # document can carry them
+            return base64.b64encode(s.encode().replace(b"~L1~", b"\xe9").replace(b"~BIN~", b"\xff\xfe")).decode()
+        return s
     if isinstance(node, dict):
         return {k: render(v) for k, v in node.items()}
     if isinstance(node, list):
